@@ -80,6 +80,8 @@ type lexer struct {
 	start int
 	pos   int
 	width int
+
+	inVariable bool // lexing the segments of a variable, which must not nest
 }
 
 func (l *lexer) tokens() tokens { return l.toks[:l.len] }
@@ -228,7 +230,10 @@ func lexVariable(l *lexer) error {
 			return err
 		}
 
-		if err := lexSegments(l); err != nil {
+		l.inVariable = true
+		err := lexSegments(l)
+		l.inVariable = false
+		if err != nil {
 			return err
 		}
 		r = l.next()
@@ -254,6 +259,9 @@ func lexSegment(l *lexer) error {
 		l.backup()
 		return l.emit(tokenStar)
 	case r == '{':
+		if l.inVariable {
+			return l.errUnexpected() // a variable must not contain other variables
+		}
 		l.backup()
 		return lexVariable(l)
 	default:
